@@ -69,7 +69,7 @@ type fnSpec struct {
 }
 
 // groups in file order; a function may only call functions of its own or an earlier group
-var groups = []string{"", "Tak", "Over", "Move", "Sym", "AI", "FPA", "Eval", "Pos", "Road", "MoveGen"}
+var groups = []string{"", "Tak", "Over", "Move", "Sym", "AI", "FPA", "Eval", "Pos", "Road", "MoveGen", "SymMove", "Prove"}
 
 var whitelist = []fnSpec{
 	{dir: "bitboard", file: "bits.go", name: "Precompute", lean: "precompute"},
@@ -146,6 +146,16 @@ var whitelist2 = []fnSpec{
 	{dir: "tak", file: "move.go", name: "init", lean: "slidesInit", group: "MoveGen", globals: "slides", writes: "slides"},
 	{dir: "tak", file: "move.go", recv: "Position", name: "AllMoves", lean: "positionAllMoves", group: "MoveGen", globals: "slides",
 		views: map[string]string{"p": "Black Height White blackCaps cfg.Size move whiteCaps"}},
+
+	// group SymMove: symmetry.TransformMove (a function-typed parameter, panicking callees Dest / MkSlides)
+	{dir: "symmetry", file: "canonical.go", name: "TransformMove", lean: "transformMove", group: "SymMove"},
+
+	// group Prove: prove/dfpn.go terminalBounds, prove/pn.go flag helpers of `node` (int8 bit tests)
+	{dir: "prove", file: "dfpn.go", recv: "DFPNSolver", name: "terminalBounds", lean: "terminalBounds", group: "Prove", views: map[string]string{"d": "attacker", "g": "move"}},
+	{dir: "prove", file: "pn.go", recv: "node", name: "expanded", lean: "nodeExpanded", group: "Prove", views: map[string]string{"n": "flags"}},
+	{dir: "prove", file: "pn.go", recv: "node", name: "andNode", lean: "nodeAndNode", group: "Prove", views: map[string]string{"n": "flags"}},
+	{dir: "prove", file: "pn.go", recv: "node", name: "proof", lean: "nodeProof", group: "Prove", views: map[string]string{"n": "delta flags phi"}},
+	{dir: "prove", file: "pn.go", recv: "node", name: "disproof", lean: "nodeDisproof", group: "Prove", views: map[string]string{"n": "delta flags phi"}},
 }
 
 func init() {
@@ -1096,17 +1106,29 @@ func (t *tr) binary(e *ast.BinaryExpr, rt ltype) string {
 		if lt.c == tBV {
 			return "(" + l + " &&& " + r + ")"
 		}
+		if lt.c == tInt {
+			return intBits(lt, l, "&&&", r)
+		}
 	case token.OR:
 		if lt.c == tBV {
 			return "(" + l + " ||| " + r + ")"
+		}
+		if lt.c == tInt {
+			return intBits(lt, l, "|||", r)
 		}
 	case token.XOR:
 		if lt.c == tBV {
 			return "(" + l + " ^^^ " + r + ")"
 		}
+		if lt.c == tInt {
+			return intBits(lt, l, "^^^", r)
+		}
 	case token.AND_NOT:
 		if lt.c == tBV {
 			return "(" + l + " &&& ~~~" + r + ")"
+		}
+		if lt.c == tInt {
+			return intBits(lt, l, "&&& ~~~", r)
 		}
 	case token.SHL:
 		if lt.c == tBV {
@@ -1125,6 +1147,16 @@ func (t *tr) binary(e *ast.BinaryExpr, rt ltype) string {
 	}
 	t.fail(e, "operator %s on %s", e.Op, lt.lean())
 	return "?"
+}
+
+// intBits: a bit operation on a signed integer = the operation on its two's-complement representation (width of the Go
+// type; `int` / `int64`: 64 bits, the value being assumed in range like everywhere else)
+func intBits(lt ltype, l, op, r string) string {
+	w := lt.width
+	if w == 0 {
+		w = 64
+	}
+	return fmt.Sprintf("(BitVec.toInt ((BitVec.ofInt %d %s) %s (BitVec.ofInt %d %s)))", w, l, op, w, r)
 }
 
 var assignOps = map[token.Token]token.Token{
